@@ -240,6 +240,10 @@ func NewFont(ld *ot.Loader) (*Font, error) {
 
 	raw, _ = ld.RawTable(ot.MustNewTag("avar"))
 	out.avar, _, _ = tables.ParseAvar(raw)
+	if len(out.avar.AxisSegmentMaps) != len(out.fvar) {
+		// 'avar' has one segment map per 'fvar' axis: an inconsistent table is ignored
+		out.avar = tables.Avar{}
+	}
 
 	out.upem = out.head.Upem()
 
